@@ -65,6 +65,12 @@ def main():
         visit(d["functions"])
         types[u] = {k: sorted(v)[0] for k, v in tm.items() if len(v) == 1}
     m["__types__"] = types
+    # names under which the rules know the records (a later tree that adds or removes a struct tag keeps these names)
+    recs = set()
+    for u, d in facts.items():
+        for r in d["records"]:
+            recs.add(r["name"])
+    m["__records__"] = sorted(recs)
     with open(os.path.join(VERIF, "engine", "namemap.json"), "w") as fh:
         json.dump(m, fh, indent=0, sort_keys=True)
     print("namemap: %d functions" % sum(len(v) for k, v in m.items() if not k.startswith("__")))
